@@ -95,6 +95,14 @@ func Start(prop, level string) *Run {
 	return r
 }
 
+// Shard returns this process' index and the number of worker processes (0,1 outside a worker).
+func (r *Run) Shard() (int, int) {
+	if !r.worker || r.nsh <= 1 {
+		return 0, 1
+	}
+	return r.shard, r.nsh
+}
+
 func (r *Run) Quick() bool    { return r.Tier == "quick" }
 func (r *Run) IsWorker() bool { return r.worker }
 
